@@ -364,7 +364,8 @@ theorem toBool_eq {s s' : St} (h : Inv s) {v : Nat} (hv : v < s.n) {r : Bool}
     (hz : ∀ x ∈ c, x ≠ 0) : (r = false ↔ toBoolFalse c) ∧ ∀ u, absVar s' u = absVar s u := by
   obtain ⟨d, hd⟩ := desc_some h v
   have hcl : c.length = d.len := by rw [desc_len h hd, allSome_eq hc, List.length_map]
-  simp only [toBool, hd, Option.bind_eq_bind, Option.bind_some] at e
+  simp only [toBool, hd, Option.bind_eq_bind, Option.bind_some, show Generated.toBoolZeroLit = [48] from rfl,
+    List.length_singleton] at e
   by_cases l0 : d.len = 0
   · simp only [l0, if_true, Option.pure_def, Option.some.injEq, Prod.mk.injEq] at e
     obtain ⟨rfl, rfl⟩ := e
@@ -528,7 +529,8 @@ theorem queries_total3 {s : St} (h : Inv s) {v w : Nat} (hv : v < s.n) (hw : w <
   obtain ⟨dw, hdw⟩ := desc_some h w
   obtain ⟨E, t⟩ := eff_cview h hv g1
   refine ⟨?_, ?_, ?_⟩
-  · simp only [toBool, hdv, Option.bind_eq_bind, Option.bind_some]
+  · simp only [toBool, hdv, Option.bind_eq_bind, Option.bind_some, show Generated.toBoolZeroLit = [48] from rfl,
+      List.length_singleton]
     by_cases l0 : dv.len = 0
     · simp [l0]
     · simp only [l0, if_false, contentVal_eq h, ha, Option.map_some]
